@@ -45,6 +45,12 @@ def main():
         if o.strip():
             print("/repo is not clean, refusing"); return 2
         rc, o = sh(f"git -C /repo apply {os.path.join(mdir, 'patch.diff')}")
+        # evidence/ and replays/ describe the UNCHANGED tree: keep them out of the mutant runs' way
+        saved = {}
+        for p in [pid] + also:
+            ev = f"/verif/evidence/{p}.json"
+            if os.path.exists(ev):
+                saved[ev] = open(ev).read()
         try:
             for p in [pid] + also:
                 t0 = time.time()
@@ -64,6 +70,8 @@ def main():
         finally:
             sh("git -C /repo checkout -- .")
             sh("git -C /repo clean -fdq")
+            for ev, txt in saved.items():
+                open(ev, "w").write(txt)
     dst = f"/verif/seeded/{name}"
     os.makedirs(dst, exist_ok=True)
     for f in ("patch.diff", "demo_test.go", "NOTE.md"):
